@@ -78,6 +78,20 @@ func genVolProgram(g *Gen, round int, nMut int) volProgram {
 	return p
 }
 
+// every connection of a concurrent phase has a past: a transaction and an introspection command (both run
+// under the exclusive lock). Whatever they leave behind in the connection or in the lock bookkeeping must not
+// change how the connection's later commands synchronise with other connections.
+func c08Past(c *Conn, i int) {
+	switch i % 3 {
+	case 0:
+		c.Do(3*time.Second, bs("MULTI")...)
+		c.Do(3*time.Second, bs("PING")...)
+		c.Do(3*time.Second, bs("EXEC")...)
+	case 1:
+		c.Do(3*time.Second, bs("CLIENT", "INFO")...)
+	}
+}
+
 // runs the program on the emulator; returns the executed commands in invocation order and the final replies
 func runVolProgram(srv *Server, p volProgram) (ops []cop, finals []*Node, why string, err error) {
 	k := len(p.Mutators) + len(p.Rewriters)
@@ -93,6 +107,9 @@ func runVolProgram(srv *Server, p volProgram) (ops []cop, finals []*Node, why st
 		if _, err := obs.Do(4*time.Second, bs(a...)...); err != nil {
 			return nil, nil, "setup got no reply: " + err.Error(), nil
 		}
+	}
+	for i := range conns {
+		c08Past(conns[i], i)
 	}
 	var mu sync.Mutex
 	var wgM, wgR sync.WaitGroup
@@ -220,6 +237,7 @@ func c08Conditional(cfg runCfg, res *Result, srv *Server, round int) error {
 			return err
 		}
 		defer conns[i].Close()
+		c08Past(conns[i], i+round)
 	}
 	conns[nPushers+1].Do(3*time.Second, bs("FLUSHALL")...)
 	var stop int32
@@ -316,6 +334,7 @@ func c08Snapshot(cfg runCfg, res *Result, srv *Server, round int) error {
 			return err
 		}
 		defer conns[i].Close()
+		c08Past(conns[i], i+round)
 	}
 	conns[nW+nR].Do(3*time.Second, bs("FLUSHALL")...)
 	// a large string whose bytes are all equal: every writer replaces the whole payload by ONE letter in a
